@@ -238,7 +238,8 @@ class DynamicUboundCheckRule(GenericRule):
 
         cond_map = {cond: FindInlineCalls(unique=False).visit(cond.condition)
                     for cond in FindNodes(Conditional).visit(subroutine.body)}
-        return {call: cond for cond, calls in cond_map.items() for call in calls}
+        return {call: cond for cond, calls in cond_map.items() for call in calls
+                if str(call.function).lower() == 'ubound'}
 
     @classmethod
     def get_assumed_shape_args(cls, subroutine):
